@@ -90,11 +90,38 @@ def run(facts, tr, rep):
     # generator construction
     cr = [x for x in facts.crates[CRATE].bodies if x.name == "create_rng"]
     ctor_calls = []
+    CTORS = ("seed_from_u64", "from_seed", "from_os_rng", "from_rng", "from_entropy", "try_from_os_rng")
     for bd in facts.crates[CRATE].bodies:
         for c in graph(bd).calls():
-            if c.name in ("seed_from_u64", "from_seed", "from_os_rng", "from_rng", "from_entropy", "try_from_os_rng"):
+            if c.name in CTORS:
                 ctor_calls.append((bd, c))
-    rep.floor("C19.generator-constructions", len(ctor_calls), 2)
+    # ... and constructors handed to an Option combinator as function items:
+    #     config.seed.map_or_else(StdRng::from_os_rng, StdRng::seed_from_u64), .map(seed_from_u64).unwrap_or_else(from_os_rng)
+    ROLE_OF = {("map_or_else", 1): "None", ("map_or_else", 2): "Some", ("map", 1): "Some", ("and_then", 1): "Some",
+               ("map_or", 2): "Some", ("unwrap_or_else", 1): "None", ("or_else", 1): "None"}
+    item_uses = []
+    for bd in facts.crates[CRATE].bodies:
+        for c in graph(bd).calls():
+            for k, a in enumerate(c.args):
+                fi = (a.get("const") or {}).get("fn") if isinstance(a, dict) else None
+                if fi and fi.get("name") in CTORS:
+                    item_uses.append((bd, c, k, fi["name"]))
+    rep.floor("C19.generator-constructions", len(ctor_calls) + len(item_uses), 2)
+    for n, (bd, c, k, nm) in enumerate(item_uses):
+        rep.saw(bd)
+        role = ROLE_OF.get((c.name, k)) if (c.def_ or "").startswith("core::option::Option") else None
+        recv = tr.expand(tr.operand(bd, c.args[0], c.loc), upvars=True)
+        on_seed = mentions_field(tr, recv, "seed")
+        if nm in ("seed_from_u64", "from_seed"):
+            ok = role == "Some" and on_seed
+            rep.ob("C19.SEED", skey(bd, "%s-item#%d" % (nm, n)), ok, c.where(),
+                   "with a seed the generator is StdRng::seed_from_u64 applied to config.seed's payload (%s)" % c.name if ok else
+                   "seeded construction (passed to %s) is not applied to the payload of config.seed" % c.name)
+        else:
+            ok = role == "None" and on_seed
+            rep.ob("C19.SEED", skey(bd, "%s-item#%d" % (nm, n)), ok, c.where(),
+                   "OS entropy is used only when no seed is configured (%s on config.seed)" % c.name if ok else
+                   "an entropy-seeded generator can be constructed (via %s) although a seed may be configured" % c.name)
     for n, (bd, c) in enumerate(ctor_calls):
         rep.saw(bd)
         edges = dominating_edges(tr, bd, c.bb)
@@ -110,7 +137,7 @@ def run(facts, tr, rep):
                    "OS entropy is used only when no seed is configured" if ok else "an entropy-seeded generator is constructed although a seed may be configured")
     st = sb.types[sb.impl["self_ty"]]
     nsh = check_share(facts, tr, rep, "C19.SHARE", st["def"])
-    rep.floor("C19.share-fields", nsh, 2)
+    rep.floor("C19.share-fields", nsh, 1)      # the generator must be shared by the clones (alone or in one shared state struct)
     # the service's generator is the one create_rng built
     # ---------------------------------------------------------------- ONE-REGION
     own = [c for (bd, c) in draws if bd is b] + [helper_of[bd.def_][1] for (bd, c) in draws if bd.def_ in helper_of]
@@ -140,6 +167,19 @@ def run(facts, tr, rep):
         reach = False
         if some_tgt is not None:
             reach = c.bb in gg.reach([some_tgt], kinds=(N,))
+        if not (ok and not reach):
+            # path form on the fully inlined program: an extracted `fail_if_injected(..)?` returns Err(e) / Ok(()) and the
+            # caller branches on that; the outcome is carried over the join by the feasibility tags
+            fi_, tri_ = facts.inl, tr.inl
+            for sbi in service_call_bodies(fi_, crate=CRATE)[:1]:
+                for (bi, ci) in inner_calls(fi_, sbi):
+                    gi_ = graph(bi)
+                    is_inj = lambda nd: nd[0] == "call" and tri_.call_of(nd).name == "inject_error"
+                    ee = enum_edges(tri_, bi, is_inj)
+                    none_e = [(a, t) for (a, t, nm) in ee if nm == "None"]
+                    some_t = [t for (a, t, nm) in ee if nm == "Some"]
+                    if none_e and some_t and only_via(gi_, ci.bb, none_e) and ci.bb not in gi_.reach(some_t, kinds=(N,), avoid_edges=none_e):
+                        ok, reach = True, False
         rep.ob("C19.SKIP", skey(bb_, "inner-call#%d" % ordinal(gg, c)), ok and not reach and not gg.in_cycle(c.bb), c.where(),
                "the wrapped service is called only when no error was injected, once" if ok and not reach else
                "the wrapped service can be called although an error was injected (or without asking the injector)")
